@@ -397,12 +397,13 @@ def sync (env : Env) (c : CI) (o : Obj) (ord : List Str) : Outcome :=
         match syncLocalFlowControls c2 o.schemas with
         | none => .crash
         | some c3 =>
-          match syncSecureServing env c3 o.secureServing with
-          | .error e => .fail e c3
-          | .ok c4 =>
-            match syncEndpoints env c4 o.servers ord with
-            | (c5, some e) => .fail e c5
-            | (c5, none) => .ok { c5 with policies := some o.policies, logging := some o.logging }
+          match syncEndpoints env c3 o.servers ord with
+          | (c4, some e) => .fail e c4
+          | (c4, none) =>
+            -- the last step that can fail: a failed `Sync` never changes `LoadServerNames`
+            match syncSecureServing env c4 o.secureServing with
+            | .error e => .fail e c4
+            | .ok c5 => .ok { c5 with policies := some o.policies, logging := some o.logging }
 
 /-- `CreateClusterInfo` after `buildClusterRESTConfig`: a fresh `ClusterInfo` given only this object -/
 def fresh (env : Env) (conn : Conn) (o : Obj) (ord : List Str) : Outcome :=
